@@ -81,6 +81,11 @@ CHECKS['C14'] = dict(
    text='Generated-input search with a specification predicate. Chains of 1-6 certificates with windows placed at t = begin, begin-1, end-1, end, end+1, slack at threshold-1 / threshold / threshold+1 for thresholds 0, 1, 60, 120, may-delegate patterns, and one of ten corruption kinds (bit flip anywhere in the 105 certificate bytes, wrong signer, swap, drop, cross-chain splice, final signature by a non-final delegate / the root / over other sigfields / with a non-permitted flag). The expected verdict is computed by a reference that walks the resulting certificate DATA: every link verified with the pure-Python Ed25519, every window and the slack evaluated, delegability of inner certificates, final signature. Both the single-certificate lock and the chain lock. Certificate.pack / unpack round trips are enumerated over 13 x 13 boundary timestamps x both booleans.',
    note='Clock pinned via functions.time; threshold via functions.flags (restored). At least 30 % of the cases authorise (vacuity guard).',
    design='3/C14')
+CHECKS['C15'] = dict(
+   technique='Hypothesis full cross product of five witness kinds x six lock kinds x signer x preimage class x boundary timestamps with pinned build and verification clocks; typed-stack acceptance predicate per lock kind on the RFC 8032 reference',
+   text='Generated-input search with a specification predicate. Locks are built under a pinned clock so the deadline is known exactly; execution timestamps sit at deadline-1 / deadline / deadline+1 and far away, verifier clocks at threshold-1 / threshold / threshold+1 for thresholds 0, 1, 60, 120; preimages of 1-64 bytes, SHAKE digest sizes 1-64, tweak scalars from five classes. Every witness kind (htlc, htlc2, ptlc, ptlc with tweak, ptlc-refund) is paired with every lock kind and signed by receiver, refund key or an outsider with right / wrong / 1-byte preimages. The witness is a pure-push script: it is reduced to the stack it leaves and the claim / refund condition of the statement is evaluated on that stack (never on the witness name); where the property itself promises success (matching builder, right key, path condition holds) a rejection is a violation regardless of the reference.',
+   note='Tweak scalars have bit 255 clear. Truncated digests are compared by the predicate itself. now = int(clock).',
+   design='3/C15')
 NOT_YET = {}
 for i in range(1, 21):
     pid = 'C%02d' % i
